@@ -133,6 +133,18 @@ pub fn run(s: &Scn, ctx: &mut RunCtx) -> RunOutput {
                         Ok(sv) => sv.call(Req { id: i as u32, key: 0 }).await,
                         Err(e) => Err(e),
                     };
+                    // a copy of the error (what a coalescing or caching layer above would hand
+                    // out) is the same error
+                    if let Err(e) = &r {
+                        let same = match (e, &e.clone()) {
+                            (FallbackError::Inner(a), FallbackError::Inner(b)) => a == b,
+                            (FallbackError::FallbackFailed(a), FallbackError::FallbackFailed(b)) => a == b,
+                            _ => false,
+                        };
+                        if !same {
+                            world::violation("C17.error_copy", "", format!("request {}: a clone of the returned error {:?} is {:?}", i, e, e.clone()));
+                        }
+                    }
                     match r {
                         Ok(x) => Out::ok(x),
                         Err(FallbackError::Inner(e)) => Out::err("Inner", Some(e)),
